@@ -13,6 +13,7 @@ package routetable_test
 // or is deleted.
 
 import (
+	"encoding/json"
 	"fmt"
 	"net"
 	"regexp"
@@ -988,9 +989,26 @@ func TestVerif_C17(t *testing.T) {
 			if strings.Contains(d.Spec, "-grace10s-") {
 				cfg.Grace = 10 * time.Second
 			}
-			fails, err := hbfs.Replay(c17Spec(cfg, 99, false), d.History)
-			if err != nil {
-				c.ToolError(err.Error())
+			// (replay every prefix on a fresh instance, as the explorer does: Check's probes drive the
+			// instance further, so it must not run between the steps of one instance)
+			var fails []hbfs.Fail
+			var evs []c17Ev
+			for _, h := range d.History {
+				var e c17Ev
+				if err := json.Unmarshal([]byte(h), &e); err != nil {
+					c.ToolError("bad event in replay file: " + err.Error())
+					return
+				}
+				evs = append(evs, e)
+			}
+			for i := 1; i <= len(evs); i++ {
+				if err := vk.Catch(func() error {
+					fails = append(fails, c17Check(c17Replay(cfg, evs[:i]), evs[:i])...)
+					return nil
+				}); err != nil {
+					fails = append(fails, hbfs.Fail{Key: c17PanicKey(err.Error(), nil), Msg: err.Error()})
+					break
+				}
 			}
 			for _, f := range fails {
 				c.Violation(f.Key, map[string]any{"spec": d.Spec, "history": d.History, "msg": f.Msg})
